@@ -84,7 +84,8 @@ def get_node_repr(node):
         "%s=%s" % (param, arg) for param, arg in zip(params, key)
     )
 
-    if key in obj.data:
+    # An uncached cells holds no values, and its key may be unhashable
+    if obj.is_cached and key in obj.data:
         return name + "(" + arglist + ")" + "=" + str(obj.data[key])
     else:
         return name + "(" + arglist + ")"
